@@ -31,6 +31,7 @@ type verifC07_iscc struct {
 	mayFail  bool
 	during   func() // a request that arrives while a write is in progress
 	budget   int    // how many such overlapping requests may still be issued
+	second   bool   // a write may be overtaken by two requests, one after the other
 }
 
 func (c *verifC07_iscc) Get(ctx context.Context, d digest.Digest) buffer.Buffer {
@@ -61,6 +62,13 @@ func (c *verifC07_iscc) Put(ctx context.Context, d digest.Digest, b buffer.Buffe
 		plan.overlap[k] = false
 		c.budget--
 		c.during()
+		// a slow write may be overtaken by a second request as well (which can
+		// carry a newer write of the same digest to completion first)
+		if c.second && c.budget > 0 && rt.NondetBool("a second request arrives before this write completes") {
+			c.budget--
+			c.during()
+			rt.Cover("store:write-overtaken-twice")
+		}
 	}
 	c.inFlight--
 	if plan != nil && plan.fail[k] {
@@ -97,18 +105,38 @@ const verifC07_h1 = "11111111111111111111111111111111111111111111111111111111111
 const verifC07_h2 = "2222222222222222222222222222222222222222222222222222222222222222"
 
 func verifHarness_C07_MutableProtoStore() {
+	verifC07_mutableProtoStore(false)
+}
+
+// Three requests in flight at once: a slow cache write is overtaken by two
+// further requests, one after the other (so that a handle can be created,
+// updated, written and discarded while an older request is still waiting for
+// its own cache read or write).
+func verifHarness_C07_ProtoStoreThreeRequests() {
+	verifC07_mutableProtoStore(true)
+}
+
+func verifC07_mutableProtoStore(three bool) {
+	sfx := ""
+	if three {
+		sfx = " [three requests in flight]"
+	}
 	// quick: 2 requests, each cache write possibly overlapped by a whole further
 	// request (at most 2 overlaps); thorough: additionally 3 requests with at
 	// most 1 overlap (3 requests with 3 overlaps did not finish in two hours).
 	ops, overlaps := 2, 2
-	if rt.Tier() > 0 && rt.NondetBool("longer history with fewer overlapping requests") {
+	if !three && rt.Tier() > 0 && rt.NondetBool("longer history with fewer overlapping requests") {
 		ops, overlaps = 3, 1
 	}
 	rt.Bound("requests_after_first_update", ops)
 	rt.Bound("overlapping_requests", overlaps)
-	rt.MustCover("store:release-during-write", "store:write-failed-requeued", "store:all-written", "store:second-action-updated")
+	if three {
+		rt.MustCover("store:release-during-write", "store:write-overtaken-twice")
+	} else {
+		rt.MustCover("store:release-during-write", "store:write-failed-requeued", "store:all-written", "store:second-action-updated")
+	}
 	ctx := context.Background()
-	iscc := &verifC07_iscc{stored: map[string]int64{}, mayFail: rt.NondetBool("writes may fail"), budget: overlaps}
+	iscc := &verifC07_iscc{stored: map[string]int64{}, mayFail: !three && rt.NondetBool("writes may fail"), budget: overlaps, second: three}
 	ss := NewBlobAccessMutableProtoStore[remoteexecution.Digest](iscc, 1000).(*blobAccessMutableProtoStore[remoteexecution.Digest, *remoteexecution.Digest])
 	d1 := digest.MustNewDigest("", remoteexecution.DigestFunction_SHA256, verifC07_h1, 1)
 	d2 := digest.MustNewDigest("", remoteexecution.DigestFunction_SHA256, verifC07_h2, 1)
@@ -134,7 +162,7 @@ func verifHarness_C07_MutableProtoStore() {
 			failures++
 			return
 		}
-		rt.Assert(h.GetMutableProto().SizeBytes == counter, "the statistics a client is handed reflect every update recorded so far (none lost, none overwritten by an earlier one)")
+		rt.Assert(h.GetMutableProto().SizeBytes == counter, "the statistics a client is handed reflect every update recorded so far (none lost, none overwritten by an earlier one)"+sfx)
 		if iscc.inFlight > 0 {
 			rt.Cover("store:release-during-write")
 		}
@@ -150,7 +178,7 @@ func verifHarness_C07_MutableProtoStore() {
 			failures++
 			return
 		}
-		rt.Assert(h.GetMutableProto().SizeBytes == counter2, "the statistics a client is handed reflect every update recorded so far (second action)")
+		rt.Assert(h.GetMutableProto().SizeBytes == counter2, "the statistics a client is handed reflect every update recorded so far (second action)"+sfx)
 		if rt.NondetBool("the request for the second action records an outcome too") {
 			rt.Cover("store:second-action-updated")
 			counter2++
